@@ -56,7 +56,7 @@ def batch(cfg, gyr, acc, mag, q0=None, extra=None):
     kw = kwargs_of(cfg)
     kw.update(extra or {})
     if q0 is not None:
-        kw["q0"] = np.array(q0, dtype=float)
+        kw["q0"] = q0
     cls = getattr(F, f)
     g = None if gyr is None else np.array(gyr, dtype=float)
     a = None if acc is None else np.array(acc, dtype=float)
